@@ -4,7 +4,7 @@
    the model's response for the same configuration, client and inputs is flattened the same way
    and the two lists are compared.  corr = 0: equal; k: the k-th atom (1-based) differs.
    Times are compared as differences (exp - iat) only. *)
-From Verif Require Import Base Scope Types Prog Pop Token Authorize Artifacts.
+From Verif Require Import Base Scope Types Prog Pop Token Authorize Artifacts ArtifactsX.
 Local Open Scope N_scope.
 
 Inductive atom := AN (n : N) | AS (s : string) | AZ (z : Z).
@@ -86,7 +86,15 @@ Definition f_userinfo (r : ui_response) : list atom :=
 Inductive c08case :=
   | CAuthz (cfg : acfg) (c : aclient) (fo : tokopts) (s : authz_in) (observed : list atom)
   | CToken (cfg : acfg) (c : aclient) (fo : tokopts) (g : ginfo) (nonce : string) (observed : list atom)
-  | CUserInfo (cfg : acfg) (c : aclient) (sub : string) (observed : list atom).
+  | CUserInfo (cfg : acfg) (c : aclient) (sub : string) (observed : list atom)
+  (* what a relying party starts from: discovery's issuer and jwks_uri, and the key set served there
+     (kid, alg, key pair recognised from the public material, any private member present) *)
+  | CMeta (cfg : acfg) (kh : keyhandling) (observed : list atom).
+
+Definition f_jwk (k : jwk) : list atom :=
+  [AS (k_kid k); AN (kalg_ix (k_alg k)); AN (k_pair k); AN (if k_priv k then 1 else 0)].
+Definition f_meta (cfg : acfg) (kh : keyhandling) : list atom :=
+  [AS (discovery_issuer cfg kh); AS (discovery_jwks_uri cfg kh)] ++ flat_map f_jwk (public_jwks_x cfg kh).
 
 Definition failed : list atom := [AS "the model refuses to build this artifact"].
 
@@ -96,8 +104,9 @@ Definition model_atoms (k : c08case) : list atom :=
   | CToken cfg c fo g nonce _ =>
       match token_endpoint_response cfg 0 0%Z g c fo nonce with Some r => f_token_response r | None => failed end
   | CUserInfo cfg c sub _ => match userinfo_response cfg c sub with Some r => f_userinfo r | None => failed end
+  | CMeta cfg kh _ => f_meta cfg kh
   end.
 Definition observed_atoms (k : c08case) : list atom :=
-  match k with CAuthz _ _ _ _ o | CToken _ _ _ _ _ o | CUserInfo _ _ _ o => o end.
+  match k with CAuthz _ _ _ _ o | CToken _ _ _ _ _ o | CUserInfo _ _ _ o | CMeta _ _ o => o end.
 
 Definition check_c08 (k : c08case) : N := first_atom_diff 1 (model_atoms k) (observed_atoms k).
